@@ -509,9 +509,10 @@ func runC20(sci interface{}) {
 			if tr != ur || td != ud {
 				detsim.Fail("typed-differs:lifecycle", "%s: typed ready=%v done=%v, untyped ready=%v done=%v", name, tr, td, ur, ud)
 			}
-			if !td {
-				cmpLists(name, n.t, n.u)
-			}
+			// (closed handles too: a plain subscription or clone has no cache of its
+			// own - Cache() is the upstream reader and keeps answering after Close -
+			// while a filtered one answers ErrNotRunning; typed and core agree on which)
+			cmpLists(name, n.t, n.u)
 			if n.t.Events != nil && !n.stalled {
 				a, b := sigsOf(n.te, false), sigsOf(n.ue, true)
 				if !closedAbove(n) && !sameUpToBatchOrder(a, b) {
